@@ -29,7 +29,7 @@ CHECKS = {
          "2-3 RR/SER transactions begun before the concurrent phase with intersecting write sets plus autocommit writers commit concurrently under seeded schedules; checked: at most one winner among overlapping writers of a key, losers fail with ErrTxSerialization and leave nothing visible, winners' values are in place at quiescence; one program in seven starts on an empty database.",
          "as C06.", "4/C07"),
  "C08": ("dbsim", "exploration", "deterministic simulation of snapshot readers racing with multi-key committers, autocommit writers and GC; interval-based snapshot-validity, atomic-visibility and repeatable-read rules over the recorded history",
-         "Snapshot readers Begin during the concurrent phase and read all keys twice while committers commit unique values to two or more keys, an autocommit writer writes and the GC timer fires; the oracle uses only call/return stamps, so it is sound for any correct implementation.",
+         "Snapshot readers Begin during the concurrent phase and read all keys twice while committers commit unique values to two or more keys, an autocommit writer writes, the GC timer fires and the shared sequence counter occasionally leaps ahead by 2^20..2^32; the oracle uses only call/return stamps, so it is sound for any correct implementation.",
          "as C06.", "4/C08"),
  "C09": ("dbsim", "exploration", "deterministic simulation: the collector is fired at every position of sequential multi-transaction histories; read-back of all actors before and after each firing and for the rest of the history against the reference model",
          "C02 histories in which the collector runs (direct call and GC timer, several times in a row, right after Begin, with snapshot transactions of different ages open) followed by quiescence so that physical deletions have happened; all actors' reads immediately before and after must be identical and equal to the model, and the remaining history must still match. A quarter of the cases are concurrent: a collector actor overlapping snapshot readers and committers (C08's interval rules) or autocommit/RU/RC readers of a key under overwrite (C06's rules).",
@@ -38,19 +38,19 @@ CHECKS = {
          "For sampled content lengths every fault position from the boundary set {0,1,chunk-1,chunk,chunk+1,L-1} plus seeded offsets is injected: simulated-disk ENOSPC on subsets of roots (honest and over-reporting disks), source reader errors and odd read shapes, cancellation at a source offset or between the Write calls of a created file, and link cuts through the in-process gRPC transport; an error must leave the previous value, nil must mean the complete value, and a root that really has room and reported more free space than the failing ones must be used.",
          "gRPC transport is an in-process stub whose semantics are pinned by a conformance probe against real grpc-go; the real grpc-go runtime is exercised only by the fault-free C11 tier.", "4/C10"),
  "C11": ("dbsim+simgrpc+grpcreal", "exploration", "differential deterministic simulation: the same seeded sequential history through the inline client, the external client over the in-process gRPC transport, and the external client over real loopback gRPC; pairwise equal values and error classes, and equal to the reference model",
-         "Sequential histories of C01-C03/C13 (content sizes across the 2048-byte chunk boundary, all four levels) are executed through the three client stacks from one seed; a second generator pushes every exported sentinel under seeded wrapping through the real adapters; one case in eight adds 34-45 keys of about 1000 bytes (key listing and stream headers far beyond one chunk); calls with dead and per-call contexts as in C01.",
+         "Sequential histories of C01-C03/C13 (content sizes across the 2048-byte chunk boundary, all four levels) are executed through the three client stacks from one seed; a second generator pushes every exported sentinel under seeded wrapping through the real adapters; one case in eight adds 34-45 keys of about 1000 bytes (key listing and stream headers far beyond one chunk); calls with dead and per-call contexts as in C01; long-lived streams (NumWorkers+1 unread readers of a 3-6 MiB content) with 120 s call deadlines over real gRPC; two cases per run idle for 36 s of real time with streams open.",
          "grpcreal runs use real grpc-go with uncontrolled scheduling but sequential fault-free histories (outcomes are a function of the seed).", "4/C11"),
  "C12": ("asyncsim+dbsim", "exploration", "deterministic simulation of the writer against the storing goroutine: every synchronisation step of Write/Read/Close is a seeded scheduler choice; oracle Close returns and content = concatenation",
          "The read-writer behind Create runs alone (asyncsim) with a storing goroutine that drains it like io.Copy with seeded buffer sizes, and end to end through db.Create on a whole inline database (dbsim); write sizes from {0,1,7,511..513,32767..32769}; seeded uniform and PCT schedules with decision points before lock acquire and release, Cond.Wait entry, atomics; storing-side failures injected; one db case in eight hands 0.6-6 MiB to Write while the storing side is far behind and mostly about to fail. Close must return (deadlock detector) and nil must mean Get = concatenation of all writes.",
          "interleavings at the granularity of sync/atomic operations.", "4/C12"),
  "C13": ("dbsim+simgrpc", "exploration", "deterministic simulation of histories that keep using ended transaction handles while observers of all levels are open; reference model ErrTxNotFound / no effect; reopen",
-         "After each Commit (success or serialization failure) and Rollback the handle keeps being used for every operation in seeded order while RU/RC/RR observers read everything; then close and reopen; requests naming unknown transactions (well-formed and malformed ids) through the raw gRPC stub; calls made with an already cancelled context (refused => no effect). Every late call except Rollback must fail with ErrTxNotFound and no observer's read-back may change.",
+         "After each Commit (success or serialization failure) and Rollback the handle keeps being used for every operation in seeded order while RU/RC/RR observers read everything; then close and reopen; requests naming unknown transactions (well-formed and malformed ids) through the raw gRPC stub; calls made with an already cancelled context (refused => no effect); a concurrent template: one client ends the transaction while another is still using the same handle, and after both have returned every call through the handle is judged. Every late call except Rollback must fail with ErrTxNotFound and no observer's read-back may change.",
          "as C01.", "4/C13"),
  "C14": ("dbsim", "exploration", "deterministic simulation of fault-free histories run to exact quiescence (no runnable goroutine, GC fired), then directory walk vs GetKeys/Get",
          "After any mix of overwrites, deletes, in-transaction overwrites, commits, failed commits and rollbacks all transactions are ended, the world is run to exact quiescence, the GC timer fires once, quiescence again (variants: Close with jobs queued, reopen; per-call caller contexts cancelled on return; the external client over the simulated transport, whose handler contexts end with each call); the regular files under all roots must be in bijection with the readable keys, byte-equal.",
          "quiescence is exact because every goroutine of the database is managed by the simulator.", "4/C14"),
  "C15": ("racesim", "exploration", "deterministic simulation under the Go race detector: seeded serialised schedules whose hand-off (raw pipe reads in norace code) is invisible to the detector, so the happens-before graph is the program's own",
-         "Concurrent client programs (first use right after Open, C06-C08 style mixes, Create writer vs storing goroutine, pool programs) run built with -race; the scheduler parks goroutines on pipes through raw system calls, shims delegate to the real sync primitives; a report counts iff one of its stacks is in fs_db code outside the harness.",
+         "Concurrent client programs (first use right after Open, C06-C08 style mixes, Create writer vs storing goroutine, pool programs) run built with -race; the scheduler parks goroutines on pipes through raw system calls, shims delegate to the real sync primitives; a report counts iff one of its stacks is in fs_db code outside the harness. Kinds: first use, mixes, Create, pool, reopen of an existing database against a microsecond collector, directory listings failing while clients write.",
          "the detector judges only accesses that occur in the explored executions.", "4/C15"),
  "C16": ("poolsim", "exploration", "deterministic simulation of the real worker pool with a simulated clock: seeded schedules over every lock/atomic/channel/timer step of senders, flusher and workers; oracle exactly-once at quiescence, Stop ordering, no panic/deadlock",
          "2-4 concurrent senders issue quick, gate-blocked and cancellation-ignoring jobs against 1-3 workers (gates open once every Send of the phase has returned: a Send must never need a job or a Stop to finish), the Send time-out is a scheduler-fired timer, Stop/Run cycles, Stop racing with senders, lifecycle calls in arbitrary sequential order and racing; at quiescence (all gates open, all timers fired, no further Send) every accepted job has run exactly once; Stop returns only after started jobs finished; deadlock, panic and runtime-fatal misuse detectors.",
